@@ -312,6 +312,7 @@ PROPS["C18"] = {
 PROPS["C07"] = {
     "level": "fault_enumeration",
     "rule": ("backend-ops: rapid sequences of 1-8 operations on the real FileSystemCache: complete writes, writes whose reader fails at chunk k, pairs of CONCURRENT writes of one key whose readers are gated chunk by chunk by a generated interleaving (one of them optionally failing), deletes; after every operation each key must be absent or hold exactly one complete content of a completed write (never a prefix, never a mixture). "
+             "cas-ops: sequences of Cas.Write over a fault-injecting in-memory backend, including two simultaneous writes of one digest where the first backend write is held until the second Write has returned and either may fail; a Write that returned nil must leave the blob retrievable with its exact content. "
              "crash-in-set: a child process dies from SIGKILL inside Set after k chunks (k = 0..12), over an absent or an existing key; afterwards the key holds the old complete content, the new complete content, or nothing. "
              "kill-histories: real-binary histories (targets with 0.2-3 MiB outputs, dir outputs, blobs shared between targets) where builds are killed with SIGKILL (whole process group) after 0-1500 ms or run with an unwritable blob store; after EVERY invocation the cache directory is audited "
              "(each cas/<d> re-hashes to d; each target/<k> decodes, has change_hash k and references only present blobs incl. every file node of every tree) and every later fault-free build must exit 0 with byte-exact outputs. "
@@ -326,9 +327,32 @@ PROPS["C07"] = {
     "parts": [
         {"name": "backend-ops", "pkg": "c07", "test": "TestBackendOps",
          "quick": {"shards": 8, "checks": 4000, "cap": 900}, "thorough": {"shards": 16, "checks": 100000, "cap": 7200}},
+        {"name": "cas-ops", "pkg": "c07", "test": "TestCasOps",
+         "quick": {"shards": 4, "checks": 4000, "cap": 600}, "thorough": {"shards": 8, "checks": 200000, "cap": 3600}},
         {"name": "crash-in-set", "pkg": "c07", "test": "TestCrashInSet",
          "quick": {"shards": 8, "checks": 400, "cap": 900}, "thorough": {"shards": 16, "checks": 8000, "cap": 7200}},
         {"name": "kill-histories", "pkg": "c07", "test": "TestKillHistories", "binary": True,
          "quick": {"shards": 32, "checks": 64, "cap": 1500, "shrinktime": "90s"}, "thorough": {"shards": 32, "checks": 1600, "cap": 14400, "shrinktime": "300s"}},
+    ],
+}
+
+PROPS["C08"] = {
+    "level": "fault_enumeration",
+    "rule": ("wrapper-ops: sequences of 2-10 operations on the real RemoteWrapper(FileSystemCache, remote) + Cas where the remote is an in-memory store with per-operation PUT/GET/HEAD faults: CAS writes (also of blobs that are already in the local cache only, also from a fresh Cas as in a new process), reads, losing a blob locally or remotely; "
+             "a successful Cas.Write must leave the exact blob in the remote store, a read must return exact bytes and fill the local cache, a read may only fail when neither store can serve it or a fault was injected. "
+             "machines: the real binary against a loopback fake S3: machines A and B (same checkout path = same remote namespace, separate local cache roots), steps {build on A or B with the remote on or off and 0-2 injected request faults (500, 404 for an existing object, body truncated mid-stream, connection reset on the n-th GET/PUT/HEAD), edit, wipe a local cache, the remote loses an object}. "
+             "After every successful remote-on build the remote store is audited (every target result decodes and references only present blobs); after every fault-free one a third machine with an empty cache and a clean checkout must exit 0, must not execute anything that build executed, restore exact bytes and end with a consistent local cache; builds under faults either exit 0 with exact bytes or fail, within 120 s. "
+             "Non-trivial = wrapper-ops: a fault, a read-through or a write of a local-only blob; machines: a faulty build, a lost remote object or a cross-machine restore of something just written; distinct by full case."),
+    "assumptions": [
+        "only the S3 backend is exercised end to end (no GCS emulator is installed); GCS shares the wrapper and the key construction",
+        "two machines are modelled as two cache roots over one checkout path, built sequentially",
+    ],
+    "nt_floor": 0.2,
+    "parallel": 24,
+    "parts": [
+        {"name": "wrapper-ops", "pkg": "c08", "test": "TestWrapperOps",
+         "quick": {"shards": 4, "checks": 4000, "cap": 600}, "thorough": {"shards": 8, "checks": 200000, "cap": 3600}},
+        {"name": "machines", "pkg": "c08", "test": "TestMachines", "binary": True,
+         "quick": {"shards": 24, "checks": 72, "cap": 1500, "shrinktime": "90s"}, "thorough": {"shards": 32, "checks": 1600, "cap": 14400, "shrinktime": "300s"}},
     ],
 }
